@@ -11,4 +11,7 @@ def build(tier):
     # C13.b output file names: dots, dashes, three directory levels, every output location, prefix, separator
     obs.append(trees.tree_ob("C13.b", "S3", "tree", dict(sep2=False, ext_t=False, ext_m=False, excl_root=False, recursive=True, auto_ex=False),
                              fixrev=True, fixexcl=quick, timeout=400 if quick else 2400, note=" (output locations x prefix)"))
+    # sizes beyond the small skeletons, at no path cost (no exclusions, listing order as written): deep chains, wide directories
+    for sk in (('CH12', 'W20') if quick else ('CH12', 'CH30', 'W20', 'W60')):
+        obs.append(trees.tree_ob('C13', sk, 'tree', dict(base, recursive=True, excl_root=False), fixrev=True, fixexcl=True, timeout=400 if quick else 2400, note=' (large tree)'))
     return dict(obligations=obs, explanation="x", assumptions=[])
